@@ -36,21 +36,62 @@ CLUSTER_ASSUMPTIONS = [
 ]
 
 
-def cluster(monitors, p_events, view_fields=()):
-    return {"kind": "cluster", "profiles": CLUSTER_PROFILES, "monitors": list(monitors), "p_events": list(p_events),
-            "view_fields": list(view_fields), "rule": CLUSTER_RULE, "trusted_base": CLUSTER_TB, "assumptions": CLUSTER_ASSUMPTIONS}
+def cluster(monitors, p_events, view_fields=(), extra_profiles=None, component=None, rule_extra=""):
+    profiles = CLUSTER_PROFILES
+    if extra_profiles:
+        profiles = {t: CLUSTER_PROFILES[t] + extra_profiles[t] for t in CLUSTER_PROFILES}
+    d = {"kind": "cluster", "profiles": profiles, "monitors": list(monitors), "p_events": list(p_events),
+         "view_fields": list(view_fields), "rule": CLUSTER_RULE + rule_extra, "trusted_base": CLUSTER_TB, "assumptions": CLUSTER_ASSUMPTIONS}
+    if component:
+        d["component"] = component
+    return d
+
+
+def cluster_only(monitors, profiles, component=None, rule_extra=""):
+    d = cluster(monitors, [], [], component=component, rule_extra=rule_extra)
+    d["profiles"] = profiles
+    return d
+
+
+LOCKSTEP_PROFILES = {
+    "quick": [
+        {"name": "lock-step majority vs adversarial rest, 3 voters + learner", "args": ["--seed", "{seed}", "--runs", "15", "--steps", "2400", "--lockstep", "--voters", "3", "--learners", "1"]},
+        {"name": "lock-step majority vs adversarial rest, 5 voters", "args": ["--seed", "{seed}", "--runs", "15", "--steps", "2400", "--lockstep", "--voters", "5", "--learners", "0"]},
+    ],
+    "thorough": [
+        {"name": "lock-step majority vs adversarial rest, 3 voters + learner", "args": ["--seed", "{seed}", "--runs", "120", "--steps", "4000", "--lockstep", "--voters", "3", "--learners", "1"]},
+        {"name": "lock-step majority vs adversarial rest, 4 voters", "args": ["--seed", "{seed}", "--runs", "80", "--steps", "4000", "--lockstep", "--voters", "4", "--learners", "0"]},
+        {"name": "lock-step majority vs adversarial rest, 5 voters + learner", "args": ["--seed", "{seed}", "--runs", "120", "--steps", "4000", "--lockstep", "--voters", "5", "--learners", "1"]},
+    ],
+}
+STABILISE_PROFILES = {
+    "quick": [
+        {"name": "fault prefix + fair suffix, fixed configuration", "args": ["--seed", "{seed}", "--runs", "40", "--steps", "3000", "--stabilise"]},
+        {"name": "fault prefix + fair suffix, membership changes", "args": ["--seed", "{seed}", "--runs", "40", "--steps", "3000", "--reconfig", "--stabilise"]},
+    ],
+    "thorough": [
+        {"name": "fault prefix + fair suffix, fixed configuration", "args": ["--seed", "{seed}", "--runs", "300", "--steps", "5000", "--stabilise"]},
+        {"name": "fault prefix + fair suffix, membership changes", "args": ["--seed", "{seed}", "--runs", "300", "--steps", "5000", "--reconfig", "--stabilise"]},
+        {"name": "fault prefix + fair suffix, two voters", "args": ["--seed", "{seed}", "--runs", "80", "--steps", "3000", "--voters", "2", "--learners", "1", "--stabilise"]},
+    ],
+}
+STABILISE_RULE = "; every run ends with C10's fair suffix: crashed members are restarted, nodes that are no longer members are stopped, and then in every round every node handles its Ready and persists at once, every message is delivered, lost snapshots are reported failed by the application, and everybody ticks once; within 60 election timeouts there must be exactly one leader with every member's log, commit index and applied index equal to its own and no joint configuration left, and then a new proposal must be applied on every running member within 6 election timeouts (the verdict is skipped when some voter set of the configuration has no running majority, e.g. an added node that was never started)"
+LOCKSTEP_RULE = "; plus the lock-step scenario of C16: pre_vote and check_quorum on all nodes, after a healthy warm-up a leader and enough voters for a majority tick together and exchange / persist every message at once, while the remaining nodes are ticked in bursts, isolated and rejoined, crashed and restarted, campaign, and everything they send or receive is lost, duplicated, delayed or reordered; after every round the leader must still lead the same term and every member of the majority must still be in that term (no transfer is requested)"
 
 
 PROPS = {
     "C01": cluster(["C01"], ["*"], ["commit", "log", "dlog", "dcommit", "term", "dterm"]),  # the C01 theorems rest on every guard of P
     "C08": cluster(["C08"], ["rissue", "rstart", "rhback", "rresp", "rstate"], []),
+    "C10": cluster_only(["C10"], STABILISE_PROFILES, component="RN", rule_extra=STABILISE_RULE),
+    "C16": cluster(["C16"], ["bump", "campaign"], [], extra_profiles=LOCKSTEP_PROFILES, component="RN", rule_extra=LOCKSTEP_RULE),
+    "C17": cluster(["C17"], [], [], component="RN"),
     "C02": cluster(["C02"], ["campaign", "grant", "win", "stepdown"], ["role", "vote"]),
     "C03": cluster(["C03"], ["grant", "campaign", "win", "claim"], ["vote"]),
     "C04": cluster(["C04"], ["commitleader", "commitapp", "commithb", "commitclaim", "commitsnap", "ackcommitted", "sendhb", "claim"], ["commit"]),
     "C05": cluster(["C05"], ["lappend", "sendapp", "recvapp", "installsnap", "bootstrap"], ["log"]),
-    "C09": cluster(["C09"], ["bootstrap"], []),
-    "C13": cluster(["C13"], ["sendapp", "sendhb"], []),
-    "C20": cluster(["C20"], [], []),
+    "C09": cluster(["C09"], ["bootstrap"], [], component="RN"),
+    "C13": cluster(["C13"], ["sendapp", "sendhb"], [], component="RN"),
+    "C20": cluster(["C20"], [], [], component="RN"),
     "C15": cluster(["C15"], ["sendsnap", "installsnap", "commitsnap", "bootstrap"], []),
     "C06": cluster(["C06"], ["bump", "rdy", "persist", "release", "crash", "restart", "sendapp", "sendhb", "sendsnap"], ["term", "up", "dterm", "dvote", "dlog", "dcommit"]),
     "RN": {
